@@ -362,6 +362,23 @@ Json::Value gen() {
   }
   sc["ticks"] = ticks;
   sc["rewrites"] = rewrites;
+  // without d_type every entry is stat()ed after it was read: a child removed in between makes that
+  // listing fail; the next tick must list the directory from its beginning again
+  if (sc["dt_unknown"].asBool() && nticks >= 3 && P(50)) {
+    std::vector<std::string> withKids;
+    for (auto& c : view.cgs)
+      if (!view.children(c.path).empty() && w.find(c.path)) withKids.push_back(c.path);
+    if (!withKids.empty()) {
+      std::string par = oneOf(withKids);
+      auto kids = view.children(par);
+      const Cg* k = kids[R(0, (int)kids.size() - 1)];
+      if (w.find(k->path)) {
+        sc["readdir_rm"]["tick"] = nticks - 2;
+        sc["readdir_rm"]["dir"] = par;
+        sc["readdir_rm"]["name"] = k->path.substr(par.empty() ? 0 : par.size() + 1);
+      }
+    }
+  }
   return sc;
 }
 
@@ -371,7 +388,29 @@ Verdict run(const Json::Value& sc) {
   g_case = &sc;
   DaemonHooks hooks;
   hooks.probe = probe;
+  int rmTick = sc.isMember("readdir_rm") ? sc["readdir_rm"]["tick"].asInt() : -1;
+  bool rmDone = false;
+  if (rmTick >= 0) {
+    hooks.on_tick = [&](Sim& sim, int t) {
+      if (t != rmTick) {
+        g.on_readdir = nullptr;
+        return;
+      }
+      std::string dir = sim.cgroot() + (sc["readdir_rm"]["dir"].asString().empty() ? "" : "/" + sc["readdir_rm"]["dir"].asString());
+      std::string name = sc["readdir_rm"]["name"].asString();
+      std::string victim = (sc["readdir_rm"]["dir"].asString().empty() ? "" : sc["readdir_rm"]["dir"].asString() + "/") + name;
+      g.on_readdir = [&sim, &rmDone, dir, name, victim](const std::string& d, const std::string& n) {
+        if (rmDone || d != dir || n != name) return;
+        rmDone = true;
+        Op rm;
+        rm.op = "rm";
+        rm.path = victim;
+        sim.apply(rm);
+      };
+    };
+  }
   RunResult R = runDaemon(sc, &hooks);
+  g.on_readdir = nullptr;
   if (!R.config_ok) {
     v.fail("configuration rejected: " + R.config_error);
     return v;
@@ -398,6 +437,18 @@ Verdict run(const Json::Value& sc) {
     const World& w = R.worlds[t];
     const Json::Value& first = g_obs[t]["first"];
     std::map<uint64_t, Json::Value> nowById;
+    if (t == rmTick && rmDone) {
+      // the tick in which a cgroup went away under a directory listing is not judged (C10's subject);
+      // what was observed still is the history the next tick builds on
+      for (auto& c : w.cgs) {
+        const Json::Value& o = first[c.path.empty() ? "/" : c.path];
+        if (o.isObject() && !o["id"].isNull()) nowById[o["id"].asUInt64()] = o;
+      }
+      prevById = nowById;
+      v.labels.push_back("removed_under_listing");
+      v.nontrivial = true;
+      continue;
+    }
     for (auto& c : w.cgs) {
       std::string key = c.path.empty() ? "/" : c.path;
       const Json::Value& o = first[key];
